@@ -105,6 +105,10 @@ func ruleERR1(c *Ctx) []Ob {
 						}
 					}
 				}
+				if c.isRollback(ci) && c.failureAlreadyReported(fn, x) {
+					o.add(INFO, key, pos, "rollback on a path that already reports a failure (or re-raises a panic): its own error cannot be reported as well")
+					return
+				}
 				full := calleeFullName(ci)
 				if strings.HasPrefix(full, "(*bytes.Buffer).") || strings.HasPrefix(full, "(*strings.Builder).") {
 					o.add(INFO, key, pos, "in-memory writer: documented to always return a nil error")
@@ -519,4 +523,54 @@ func shortCallee(call ssa.CallInstruction) string {
 		full = full[i+1:]
 	}
 	return full
+}
+
+
+// failureAlreadyReported: every way on from the call ends in a panic, in a
+// return whose error is provably non-nil, or - in a function without an error
+// result - the call is only reached when an *error parameter holds an error.
+func (c *Ctx) failureAlreadyReported(fn *ssa.Function, call *ssa.Call) bool {
+	errIdx := errResultIndex(fn.Signature)
+	if errIdx < 0 {
+		for _, p := range fn.Params {
+			pt, ok := p.Type().(*types.Pointer)
+			if !ok || !isErrorType(pt.Elem()) {
+				continue
+			}
+			p := p
+			isLoad := func(x ssa.Value) bool {
+				u, ok := x.(*ssa.UnOp)
+				return ok && u.Op == token.MUL && u.X == ssa.Value(p)
+			}
+			if guardedBy(fn, call.Block(), nonNilEdges(fn, isLoad)) {
+				return true
+			}
+		}
+	}
+	seen := map[*ssa.BasicBlock]bool{}
+	stack := []*ssa.BasicBlock{call.Block()}
+	for len(stack) > 0 {
+		b := stack[len(stack)-1]
+		stack = stack[:len(stack)-1]
+		if seen[b] {
+			continue
+		}
+		seen[b] = true
+		last := b.Instrs[len(b.Instrs)-1]
+		switch x := last.(type) {
+		case *ssa.Panic:
+			continue
+		case *ssa.Return:
+			if errIdx < 0 {
+				return false
+			}
+			ev, ok := returnedValue(x, errIdx)
+			if !ok || !c.provablyNonNil(fn, ev, b) {
+				return false
+			}
+			continue
+		}
+		stack = append(stack, b.Succs...)
+	}
+	return true
 }
